@@ -89,6 +89,19 @@ where
   }
 }
 
+// Verification hook: the SimpleDataReader inside (its own take/stream forms are part of the
+// public API of a SimpleDataReader; there is no public constructor for the with_key one).
+#[cfg(rustdds_verif)]
+impl<D: 'static, DA> DataReader<D, DA>
+where
+  D: Keyed,
+  DA: DeserializerAdapter<D>,
+{
+  pub(crate) fn verif_simple_data_reader(&self) -> &SimpleDataReader<D, DA> {
+    &self.simple_data_reader
+  }
+}
+
 impl<D: 'static, DA> DataReader<D, DA>
 where
   D: Keyed,
